@@ -245,7 +245,12 @@ func init() {
 			}
 			return 500
 		},
-		Run:         fwRunner("C02", 40, 1500),
+		Run: func(c *h.Ctx) {
+			fwRunner("C02", 40, 1500)(c)
+			if c.Batch < 4 {
+				c02Threads(c) // last: leaves a running daemon behind in this child process
+			}
+		},
 		MinDistinct: 30,
 		Floors:      map[string]int64{"interests_forwarded": 500, "interest_steps": 1500},
 	})
